@@ -197,9 +197,12 @@ class Ghost(VC):
 
 def vcs(tier):
     out = [Step(v) for v in VARIANTS]
-    out += [Chain("DecreaseAllowance", "TransferFrom")]
+    # both directions of the reduce-vs-spend race: the owner's change then a draw, and a draw then the owner's change
+    out += [Chain("DecreaseAllowance", "TransferFrom"), Chain("TransferFrom", "DecreaseAllowance")]
     if tier == "thorough":
         out += [Chain("IncreaseAllowance", "TransferFrom")] + [Chain(a, b) for a in ("DecreaseAllowance", "IncreaseAllowance") for b in ("BurnFrom", "SendFrom")]
+        out += [Chain("TransferFrom", "IncreaseAllowance")] + [Chain(a, b) for a in ("BurnFrom", "SendFrom") for b in ("DecreaseAllowance", "IncreaseAllowance")]
+        out += [Chain(a, b) for a in DRAW for b in DRAW]
     out += [Ghost(v) for v in ("IncreaseAllowance", "DecreaseAllowance", "TransferFrom", "SendFrom", "BurnFrom", "Transfer", "Burn")]
     return out
 
